@@ -16,7 +16,7 @@ for S in "$@"; do
   APPLY=ok
   git apply "$S/patch.diff" 2>/dev/null || git apply --3way "$S/patch.diff" 2>/dev/null || APPLY=failed
   if [ $APPLY = failed ]; then echo "{\"applies\": false}" > "$S/confirm.json"; echo "$S: patch does not apply"; git reset -q --hard HEAD; continue; fi
-  ARG=$WT/target/debug/fml; grep -qi "path-to-worktree" "$S/demo/run.sh" 2>/dev/null && ARG=$WT
+  ARG=$WT/target/debug/fml; grep -qiE "path-to-worktree|path to the FML worktree|builds both profiles|cargo build" "$S/demo/run.sh" 2>/dev/null && ARG=$WT
   git diff > "$S/patch.rebased.diff"
   TESTS=$(cargo test --workspace --no-fail-fast --offline 2>&1 | grep -E "^test result" | head -1)
   cargo build --offline -q 2>/dev/null
